@@ -1416,10 +1416,30 @@ fn gen_binder(r: &mut StdRng, sys: &Sys, sh: &Shadow) -> Value {
             *pick(r, &[1usize, 2, 37, to_edge - 1, to_edge, to_edge + 1, to_edge + bs, bs, 2 * bs - 1, 2 * bs, 2 * bs + 1])
         };
         let mut xs = fresh_of(sys, sh, size, from);
-        if r.gen_bool(0.08) && !xs.is_empty() {
-            // spoil it: a duplicate inside the batch, or a token that is already bound
-            let j = r.gen_range(0..xs.len());
-            xs[j] = if r.gen_bool(0.5) || sh.order.is_empty() { xs[0].clone() } else { pick_s(r, &sh.order) };
+        let tail0 = &sh.order[count - count % bs..];
+        if xs.len() > to_edge && !tail0.is_empty() && r.gen_bool(0.3) {
+            // a batch that spills into the next bucket names, at or after the spill point, a token that sits in the
+            // partially filled bucket it started in
+            let n = xs.len();
+            let j = *pick(r, &[to_edge.min(n - 1), (to_edge + 1).min(n - 1), n - 1]);
+            xs[j] = pick_s(r, tail0);
+        } else if r.gen_bool(0.2) && !xs.is_empty() {
+            // spoil it: a duplicate inside the batch, or a token that is already bound (in the partially filled last
+            // bucket, in the first bucket, anywhere), placed first, last, or around the point where the batch spills
+            // into the next bucket
+            let n = xs.len();
+            let anyj = r.gen_range(0..n);
+            let j = *pick(r, &[0usize, n - 1, to_edge.saturating_sub(1).min(n - 1), to_edge.min(n - 1), (to_edge + 1).min(n - 1), anyj]);
+            xs[j] = if r.gen_bool(0.35) || sh.order.is_empty() {
+                xs[if j == 0 { n - 1 } else { 0 }].clone()
+            } else {
+                let tail = &sh.order[count - count % bs..];
+                match r.gen_range(0..3) {
+                    0 if !tail.is_empty() => pick_s(r, tail),
+                    1 => sh.order[0].clone(),
+                    _ => pick_s(r, &sh.order),
+                }
+            };
         }
         mk("bind_batch", "none", "none", "none", &xs, 0)
     } else if roll < p_dup {
